@@ -30,40 +30,13 @@ func (r *Run) condShapesRec(fd *FuncDecl, out map[string]int, seen map[*FuncDecl
 			if cond == nil {
 				return
 			}
-			var leaves []leafInfo
-			if t := u.Info.TypeOf(cond); t != nil && isBoolType(t) {
-				splitLeaves(cond, true, &leaves)
-			} else {
+			if t := u.Info.TypeOf(cond); t == nil || !isBoolType(t) {
 				return
 			}
-			for _, lf := range leaves {
-				sh := u.condShapeCanonical(lf.expr)
-				// attach resolved callees of calls in the leaf
-				var cs []string
-				ast.Inspect(lf.expr, func(n ast.Node) bool {
-					if c, ok := n.(*ast.CallExpr); ok {
-						if k := u.calleeKey(c); k != "" && !strings.HasPrefix(k, "builtin.") {
-							cs = append(cs, k)
-							return false // only the call whose result is tested, not the calls computing its operands
-						}
-					}
-					return true
-				})
-				// calls cached in a local operand (x := f(); if x == y) count like calls written inline
-				if be, ok := ast.Unparen(stripNot(lf.expr)).(*ast.BinaryExpr); ok {
-					for _, opnd := range []ast.Expr{be.X, be.Y} {
-						if dc := u.definingCall(opnd); dc != nil {
-							if k := u.calleeKey(dc); k != "" && !strings.HasPrefix(k, "builtin.") {
-								cs = append(cs, k)
-							}
-						}
-					}
+			for _, lf := range u.kLeaves(cond, 0) {
+				if sh, ok := u.kLeafShape(lf); ok {
+					out[sh] = 1
 				}
-				sort.Strings(cs)
-				if len(cs) > 0 {
-					sh += " [" + strings.Join(cs, ",") + "]"
-				}
-				out[sh]++
 			}
 		}
 		ast.Inspect(u.Body, func(n ast.Node) bool {
@@ -74,24 +47,31 @@ func (r *Run) condShapesRec(fd *FuncDecl, out map[string]int, seen map[*FuncDecl
 			case *ast.IfStmt:
 				add(x.Cond)
 			case *ast.ForStmt:
-				// `for i := 0; i < n; i++` and `for i := range n` are the same loop
-				if be, ok := ast.Unparen(x.Cond).(*ast.BinaryExpr); ok && be.Op == token.LSS && identOf(be.X) != nil {
-					out["loop range "+u.shapeOf(be.Y)]++
-				} else {
-					add(x.Cond)
+				// the bound of a counting loop (`i < n`) is the loop's form, not a decision
+				if be, ok := ast.Unparen(x.Cond).(*ast.BinaryExpr); ok && (be.Op == token.LSS || be.Op == token.LEQ) && identOf(be.X) != nil {
+					break
 				}
-			case *ast.RangeStmt:
-				out["loop range "+u.rangeOperandShape(x, false)]++
+				add(x.Cond)
+			case *ast.SwitchStmt:
+				if x.Tag == nil {
+					break
+				}
+				tag := u.kShape(x.Tag, 0)
+				for _, cl := range x.Body.List {
+					for _, e := range cl.(*ast.CaseClause).List {
+						if tv, ok := u.Info.Types[e]; ok && tv.Value != nil {
+							out[canonEq(tag, tv.Value.ExactString())] = 1
+						}
+					}
+				}
 			case *ast.CaseClause:
 				for _, e := range x.List {
 					if t := u.Info.TypeOf(e); t != nil && isBoolType(t) {
 						add(e)
-					} else {
-						out["case "+u.shapeOf(e)]++
 					}
 				}
 			case *ast.CallExpr:
-				// conditions of unexported helpers count for their callers (each helper once per caller)
+				// conditions of unexported helpers count for their callers
 				if h := r.unexportedHelper(u.Info, x); h != nil {
 					r.condShapesRec(h, out, seen, depth+1)
 				}
@@ -99,6 +79,153 @@ func (r *Run) condShapesRec(fd *FuncDecl, out map[string]int, seen map[*FuncDecl
 			return true
 		})
 	}
+}
+
+func canonEq(l, r string) string {
+	if l > r {
+		l, r = r, l
+	}
+	return l + "==" + r
+}
+
+// kLeaves splits a condition into its boolean leaves; a boolean local with one reaching definition
+// that is itself a comparison or connective is replaced by that definition (a condition cached in a
+// local is still the same condition).
+func (u *Unit) kLeaves(cond ast.Expr, depth int) []ast.Expr {
+	var ls []leafInfo
+	splitLeaves(cond, true, &ls)
+	var out []ast.Expr
+	for _, lf := range ls {
+		e := stripNot(lf.expr)
+		if id, ok := e.(*ast.Ident); ok && depth < 3 {
+			if rhs := u.uniqueLocalDef(id); rhs != nil {
+				switch ast.Unparen(rhs).(type) {
+				case *ast.BinaryExpr, *ast.UnaryExpr:
+					out = append(out, u.kLeaves(rhs, depth+1)...)
+					continue
+				}
+			}
+		}
+		out = append(out, e)
+	}
+	return out
+}
+
+// uniqueLocalDef: the right-hand side of the single definition `x := rhs` / `x = rhs` reaching this
+// use of a local (nil for parameters, fields, multi-value assignments and ambiguous definitions).
+func (u *Unit) uniqueLocalDef(id *ast.Ident) ast.Expr {
+	v, ok := u.Info.Uses[id].(*types.Var)
+	if !ok || v.IsField() || u.paramShape(v) != "" {
+		return nil
+	}
+	ds := u.reachingDefs(v, id)
+	if len(ds) != 1 || ds[0].rhs == nil {
+		return nil
+	}
+	if as, ok := ds[0].node.(*ast.AssignStmt); ok && len(as.Lhs) != 1 {
+		return nil
+	}
+	return ds[0].rhs
+}
+
+// kLeafShape renders the leaves K1 tracks: comparisons in which one side is a compile-time constant
+// other than nil (bounds, lengths, tags, masks, flag values) and comma-ok map membership tests.
+// Operands are abstracted to their types, so caching a value in a local, renaming, ranging instead of
+// indexing or moving the test into a helper does not change the shape; the operator (up to polarity)
+// and the constant do.
+func (u *Unit) kLeafShape(e ast.Expr) (string, bool) {
+	e = stripNot(e)
+	if id, ok := e.(*ast.Ident); ok {
+		// v, ok := m[k]
+		if v, isVar := u.Info.Uses[id].(*types.Var); isVar && !v.IsField() && u.paramShape(v) == "" {
+			ds := u.reachingDefs(v, id)
+			if len(ds) == 1 {
+				if as, ok := ds[0].node.(*ast.AssignStmt); ok && len(as.Lhs) == 2 && len(as.Rhs) == 1 {
+					if ix, ok := ast.Unparen(as.Rhs[0]).(*ast.IndexExpr); ok {
+						if t := u.Info.TypeOf(ix.X); t != nil {
+							if _, isMap := t.Underlying().(*types.Map); isMap {
+								return "mapok(<" + shortType(t) + ">)", true
+							}
+						}
+					}
+				}
+			}
+		}
+		return "", false
+	}
+	be, ok := e.(*ast.BinaryExpr)
+	if !ok {
+		return "", false
+	}
+	var op string
+	switch be.Op {
+	case token.EQL, token.NEQ:
+		op = "=="
+	case token.LSS, token.GEQ:
+		op = "<"
+	case token.LEQ, token.GTR:
+		op = "<="
+	default:
+		return "", false
+	}
+	l, r := u.kShape(be.X, 0), u.kShape(be.Y, 0)
+	if !isKConst(l) && !isKConst(r) {
+		return "", false
+	}
+	if op == "==" {
+		return canonEq(l, r), true
+	}
+	return l + op + r, true
+}
+
+func isKConst(s string) bool {
+	if s == "" || s == "nil" || s == "true" || s == "false" {
+		return false
+	}
+	return !strings.ContainsAny(s, "<(")
+}
+
+// kShape: constants by value, len/cap by name, arithmetic structurally, everything else by type;
+// locals with a single non-call definition are replaced by it.
+func (u *Unit) kShape(e ast.Expr, depth int) string {
+	e = ast.Unparen(e)
+	if tv, ok := u.Info.Types[e]; ok && tv.Value != nil {
+		return tv.Value.ExactString()
+	}
+	switch x := e.(type) {
+	case *ast.Ident:
+		if _, ok := u.Info.Uses[x].(*types.Nil); ok {
+			return "nil"
+		}
+		if depth < 3 {
+			if rhs := u.uniqueLocalDef(x); rhs != nil {
+				switch ast.Unparen(rhs).(type) {
+				case *ast.BinaryExpr, *ast.UnaryExpr, *ast.BasicLit, *ast.IndexExpr:
+					return u.kShape(rhs, depth+1)
+				case *ast.CallExpr:
+					if s := u.kShape(rhs, depth+1); strings.HasPrefix(s, "len(") || strings.HasPrefix(s, "cap(") {
+						return s
+					}
+				}
+			}
+		}
+	case *ast.BinaryExpr:
+		return u.kShape(x.X, depth) + x.Op.String() + u.kShape(x.Y, depth)
+	case *ast.UnaryExpr:
+		if x.Op != token.AND {
+			return x.Op.String() + u.kShape(x.X, depth)
+		}
+	case *ast.CallExpr:
+		if id, ok := ast.Unparen(x.Fun).(*ast.Ident); ok {
+			if b, ok := u.Info.Uses[id].(*types.Builtin); ok && (b.Name() == "len" || b.Name() == "cap") && len(x.Args) == 1 {
+				return b.Name() + "(<" + shortType(u.Info.TypeOf(x.Args[0])) + ">)"
+			}
+		}
+		if tv, ok := u.Info.Types[x.Fun]; ok && tv.IsType() && len(x.Args) == 1 {
+			return u.kShape(x.Args[0], depth) // conversion
+		}
+	}
+	return "<" + shortType(u.Info.TypeOf(e)) + ">"
 }
 
 type condRef struct {
@@ -117,7 +244,7 @@ func (r *Run) EmitCondRef(name string, scope Scope) {
 }
 
 func (r *Run) CheckCondInventory(rule, name string, scope Scope, min int) {
-	r.Rule(rule, "branch-condition inventory: for every function of the frozen reference ("+name+") each normalised branch condition (operator, constants, resolved callees) still occurs at least as often; an off-by-one in a bound, a flipped comparison or a changed constant is named")
+	r.Rule(rule, "branch-condition inventory: for every function of the frozen reference ("+name+") each comparison against a compile-time constant (bound, length, tag, mask, flag value; operands abstracted to their types, operator up to polarity) and each comma-ok map membership test still occurs, in the function or a helper it calls; an off-by-one in a bound, a flipped comparison or a changed constant is named")
 	var ref condRef
 	if err := readJSON(refPath(name), &ref); err != nil {
 		r.FailKind("anchor-unresolved", rule, "ref:"+name, err.Error())
@@ -148,16 +275,19 @@ func (r *Run) CheckCondInventory(rule, name string, scope Scope, min int) {
 		sort.Strings(ws)
 		ok := true
 		for _, w := range ws {
-			if now[w] < want[w] {
+			if now[w] == 0 {
 				ok = false
-				r.Fail(rule, k+" :: "+w, r.Prog.RelPos(fd.Decl.Pos()), fmt.Sprintf("branch condition `%s` occurs %d time(s), reference has %d (conditions now: %s)", w, now[w], want[w], strings.Join(keysOfInt(now), " ; ")))
+				r.Fail(rule, k+" :: "+w, r.Prog.RelPos(fd.Decl.Pos()), fmt.Sprintf("comparison `%s` no longer occurs (comparisons now: %s)", w, strings.Join(keysOfInt(now), " ; ")))
 			}
 		}
 		if ok {
 			r.Pass(rule, k, r.Prog.RelPos(fd.Decl.Pos()), fmt.Sprintf("%d condition shapes present", len(want)))
 		}
 	}
-	r.RequireCount(rule, "functions with branch conditions", n, min)
+	if m := len(ref.Functions) / 2; min > m {
+		min = m // the frozen reference bounds how many functions can carry a tracked comparison
+	}
+	r.RequireCount(rule, "functions with tracked comparisons", n, min)
 }
 
 func keysOfInt(m map[string]int) []string {
